@@ -92,3 +92,113 @@ func ParseCase(doc, patch string) (*ref.V, []ref.Op, string) {
 	}
 	return d, ops, ""
 }
+
+// CopyTotals measures the accumulated copy size "as spelled in the output"
+// without modelling spellings: for every copy operation k that the reference
+// evaluator applies, the patch prefix 0..k is applied by the library with the
+// limit disabled, the value the copy created is located in that output (by the
+// location the reference evaluator put it at) and the length of its text there
+// is its size (a copied null counts 0..4). lo[i], hi[i] are the bounds of the
+// running total after operation i. It stops at the first operation the
+// reference evaluator cannot apply (n = number of operations measured).
+// A non-empty why means the case cannot be measured (out of domain); err
+// reports a library failure on a prefix that the reference evaluator applies.
+func CopyTotals(docText, patchText string, o Options, apply func(doc, patch string, o Options) Res) (lo, hi []int64, n int, why string, err error) {
+	doc, ops, why := ParseCase(docText, patchText)
+	if why != "" {
+		return nil, nil, 0, why, nil
+	}
+	pt, _ := ref.Parse([]byte(patchText))
+	ro := o.Ref()
+	ro.Limit = 0
+	free := o
+	free.Limit = 0
+	st := &ref.State{Root: doc.Clone()}
+	var curLo, curHi int64
+	for i, op := range ops {
+		r := ref.Step(st, op, ro)
+		if r.Cause == ref.COutOfDomain {
+			return lo, hi, i, "out of domain: " + r.Why, nil
+		}
+		if r.Cause != ref.COK {
+			return lo, hi, i, "", nil
+		}
+		if r.Copied != nil {
+			steps, ok := ref.PathOf(st.Root, r.Copied)
+			if !ok {
+				return lo, hi, i, "copied value not found in the reference document", nil
+			}
+			prefix := "["
+			for j := 0; j <= i; j++ {
+				if j > 0 {
+					prefix += ","
+				}
+				prefix += patchText[pt.Arr[j].S:pt.Arr[j].E]
+			}
+			prefix += "]"
+			got := apply(docText, prefix, free)
+			if got.Panic != nil {
+				return lo, hi, i, "", got.Panic
+			}
+			if got.DecodeErr != nil || got.Err != nil {
+				return lo, hi, i, "", fmt.Errorf("operations 0..%d are applicable but Apply (limit disabled) failed: %v %v", i, got.DecodeErr, got.Err)
+			}
+			out, perr := ref.Parse(got.Out)
+			if perr != nil {
+				return lo, hi, i, "", fmt.Errorf("output of operations 0..%d is not well-formed: %q", i, got.Out)
+			}
+			node := ref.Follow(out, steps)
+			if node == nil || !ref.Equal(node, r.Copied) {
+				return lo, hi, i, "", fmt.Errorf("output of operations 0..%d does not hold the copied value %s where the reference evaluator put it: %s", i, r.Copied, got.Out)
+			}
+			if node.K == ref.KNull {
+				curHi += 4
+			} else {
+				curLo += int64(node.E - node.S)
+				curHi += int64(node.E - node.S)
+			}
+		}
+		lo, hi = append(lo, curLo), append(hi, curHi)
+	}
+	return lo, hi, len(ops), "", nil
+}
+
+// CopySizes returns the measured size bounds of the successive copy operations
+// (see CopyTotals) in the form ref.Opts.CopySizes takes.
+func CopySizes(docText, patchText string, o Options, apply func(doc, patch string, o Options) Res) (sizes [][2]int64, why string, err error) {
+	lo, hi, n, why, err := CopyTotals(docText, patchText, o, apply)
+	if err != nil {
+		return nil, "", err
+	}
+	_, ops, w2 := ParseCase(docText, patchText)
+	if w2 != "" {
+		return nil, w2, nil
+	}
+	var pl, ph int64
+	for i := 0; i < n && i < len(lo); i++ {
+		if ops[i].Op == "copy" {
+			sizes = append(sizes, [2]int64{lo[i] - pl, hi[i] - ph})
+		}
+		pl, ph = lo[i], hi[i]
+	}
+	// why (an out-of-domain operation met while measuring) only matters if the
+	// evaluation gets that far; the caller's own evaluation will say so too
+	return sizes, "", nil
+}
+
+// PrefixText returns the patch document made of the first k operations of
+// patchText, each in its original spelling.
+func PrefixText(patchText string, k int) string {
+	pt, err := ref.Parse([]byte(patchText))
+	if err != nil || pt.K != ref.KArr {
+		return patchText
+	}
+	out := "["
+	for j := 0; j < k && j < len(pt.Arr); j++ {
+		if j > 0 {
+			out += ","
+		}
+		out += patchText[pt.Arr[j].S:pt.Arr[j].E]
+	}
+	return out + "]"
+}
